@@ -182,7 +182,7 @@ class StepChecker:
                     break
             if hit:
                 self.stats["rule_explained"][hit] = self.stats["rule_explained"].get(hit, 0) + 1
-            elif op in AC_OPS or (op not in COMPLETE_OPS and not E.is_bool(n)):
+            elif op in AC_OPS or op in ("eq", "ne") or (op not in COMPLETE_OPS and not E.is_bool(n)):
                 pending_ac.append((n, rt, cands))
             elif op in COMPLETE_OPS:
                 bad.append(("corr:unexplained-rewrite", "%s built %s; model candidates: %s" % (
@@ -202,14 +202,20 @@ class StepChecker:
                     reqs.append("ac %s | %s" % (E.sexpr(n), E.sexpr(rt)))
                 if not E.is_bool(n):
                     reqs.append("bits %s | %s" % (E.sexpr(n), E.sexpr(rt)))
+                elif n[0] in ("eq", "ne"):
+                    reqs.append("cmp %s | %s" % (E.sexpr(n), E.sexpr(rt)))
             outs2 = iter(ctx.driver(reqs))
             for (n, rt, cands) in pending_ac:
                 op = n[0].split(":")[0]
                 how = None
                 if n[0] in AC_OPS and next(outs2) == "1":
                     how = "AC." + op
-                if not E.is_bool(n) and next(outs2) == "1" and how is None:
-                    how = "BITS." + op
+                if not E.is_bool(n):
+                    if next(outs2) == "1" and how is None:
+                        how = "BITS." + op
+                elif n[0] in ("eq", "ne"):
+                    if next(outs2) == "1" and how is None:
+                        how = "CMP." + op
                 if how:
                     self.stats["rule_explained"][how] = self.stats["rule_explained"].get(how, 0) + 1
                 else:
